@@ -32,4 +32,14 @@ def getIndexForPoint (c : Conv) (polys : List (Option Poly)) (hits : List Nat) :
   (firstHit hits).map fun n =>
     { linear := n, native := c.windIndex none (n : Int), polygon := (polys[n]?).join }
 
+/-- **Specification of the spatial-index hits on a CF 1-D grid, from the bounds alone**: the row-major
+positions `j * nx + i` whose latitude bounds contain the point's y and whose longitude bounds contain its x
+(closed intervals, either axis direction).  No polygon and no geometric predicate is involved;
+`C04.cf1d_hits_eq` proves it equal to the hit set of the exact point-in-polygon test on the cell polygons. -/
+def cf1dHits (lonb latb : List (Rat × Rat)) (pt : Pt) : List Nat :=
+  (List.range (latb.length * lonb.length)).filter fun n =>
+    match latb[n / lonb.length]?, lonb[n % lonb.length]? with
+    | some yb, some xb => between pt.1 xb.1 xb.2 && between pt.2 yb.1 yb.2
+    | _, _ => false
+
 end Ems
